@@ -445,3 +445,449 @@ async def check_top_hostile(case, rec):
     elif "leading-dash" in feats:
         bucket = "C22:top-hostile:leading-dash-name"
     await _run_transfer(case, rec, bucket=bucket)
+
+
+# =================================================================================================
+# sequences and concurrency (second round: two transfers onto the same destination; transfers in flight together)
+
+import contextlib  # noqa: E402
+import contextvars  # noqa: E402
+import hashlib  # noqa: E402
+
+
+@contextlib.asynccontextmanager
+async def _world(buf: int = 65536):
+    """Fresh sandbox + context + the five locations (same set-up as _run_transfer)."""
+    import shutil
+    import tempfile
+
+    from vf.engine.harness import make_context
+    from vf.fakes.shellremote import deploy_all, deployment_config, get_location, local_config
+
+    sandbox = os.path.realpath(tempfile.mkdtemp(prefix="vf-c22-"))
+    old_cwd = os.getcwd()
+    os.makedirs(os.path.join(sandbox, "cwd"))
+    os.chdir(os.path.join(sandbox, "cwd"))
+    ctx = make_context(workdir=sandbox)
+    try:
+        conns = await deploy_all(
+            ctx,
+            [
+                local_config(),
+                deployment_config("A", "vf-shell", locations=["a0", "a1"], transferBufferSize=buf),
+                deployment_config("B", "vf-shell", locations=["b0"], transferBufferSize=buf),
+                deployment_config("W", "vf-wrap", wraps="A", transferBufferSize=buf),
+            ],
+        )
+        locs = {
+            "L": await get_location(conns["__LOCAL__"]),
+            "A0": await get_location(conns["A"], "a0"),
+            "A1": await get_location(conns["A"], "a1"),
+            "B0": await get_location(conns["B"], "b0"),
+            "W0": await get_location(conns["W"], "a0-w"),
+        }
+        yield sandbox, ctx, conns, locs
+    finally:
+        try:
+            await ctx.deployment_manager.undeploy_all()
+            await ctx.close()
+        finally:
+            os.chdir(old_cwd)
+            shutil.rmtree(sandbox, ignore_errors=True)
+
+
+def _versioned_tree(v: int) -> dict:
+    """Two versions of one tree: the same names, different contents AND different exec bits per file."""
+    x = (1, 0, 2, 3) if v == 1 else (0, 1, 0, 1)  # v1: run.sh 0755, data 0644 ...; v2: run.sh 0644, data 0755 ...
+    return {"alpha": "plain", "dangling": False, "entries": [
+        {"k": "f", "n": "run.sh", "p": 0, "size": 700 + v, "seed": 10 + v, "c": "textnl", "x": x[0]},
+        {"k": "d", "n": "sub", "p": 0},
+        {"k": "f", "n": "tool", "p": 1, "size": 5000 * v, "seed": 20 + v, "c": "bin", "x": x[1]},
+        {"k": "f", "n": "same-size", "p": 1, "size": 513, "seed": 30 + v, "c": "bin", "x": x[2]},
+        {"k": "f", "n": "shrinks", "p": 0, "size": 3000 // v, "seed": 40 + v, "c": "text", "x": x[3]}]}
+
+
+def gen_overwrite(tier):
+    """v1 is transferred, then v2 (same basename, every file with other content and other exec bits) is
+    transferred writable onto the same destination: every ordered pair of location kinds x {file, directory}
+    (thorough); quick: every copy mechanism x {file, directory} with rotating routes + every pair once."""
+    allc = [{"src": s, "dst": d, "stype": t} for s in KINDS for d in KINDS for t in ("file", "dir")]
+    if tier != "quick":
+        yield from allc
+        return
+    seen_mech, seen_pair = set(), set()
+    for i, c in enumerate(allc):
+        mech = _route_class({"src": c["src"], "dst": c["dst"], "writable": True}).split("-")[0]
+        pair = (c["src"], c["dst"])
+        want_type = "file" if (KINDS.index(c["src"]) + KINDS.index(c["dst"])) % 2 == 0 else "dir"
+        if (mech, c["stype"]) not in seen_mech or (pair not in seen_pair and c["stype"] == want_type):
+            seen_mech.add((mech, c["stype"]))
+            seen_pair.add(pair)
+            yield c
+
+
+async def _register_and_transfer(ctx, src_loc, src_path, dst_loc, dst_path, writable):
+    from streamflow.data.remotepath import StreamFlowPath
+
+    dm = ctx.data_manager
+    real = await StreamFlowPath(src_path, context=ctx, location=src_loc).resolve()
+    dm.register_path(location=src_loc, path=str(real), relpath=real.name)
+    sel = await dm.get_source_location(path=str(real), dst_deployment=dst_loc.deployment)
+    await dm.transfer_data(src_location=sel.location, src_path=sel.path, dst_locations=[dst_loc], dst_path=dst_path, writable=writable)
+
+
+@prop.enumerated("overwrite", gen_overwrite, loop="std", case_timeout=600, max_shards=8)
+async def check_overwrite(case, rec):
+    from streamflow.core.exception import WorkflowExecutionException
+
+    mech = _route_class({"src": case["src"], "dst": case["dst"], "writable": True})
+    tag = f"C22:overwrite:{mech}:"
+    rec.label(f"route:{case['src']}->{case['dst']}", f"mechanism:{mech}", f"src:{case['stype']}")
+    rec.nontrivial(True)
+    async with _world() as (sandbox, ctx, conns, locs):
+        s_root, d_root = os.path.join(sandbox, "s"), os.path.join(sandbox, "d")
+        srcs = []
+        for v in (1, 2):
+            p = os.path.join(s_root, f"v{v}", "obj")
+            os.makedirs(os.path.dirname(p))
+            if case["stype"] == "dir":
+                fs.materialize(_versioned_tree(v), p)
+            else:
+                with open(p, "wb") as fh:
+                    fh.write(fs.content(900 * v, 50 + v, "bin"))
+                os.chmod(p, 0o644 if v == 1 else 0o755)
+            srcs.append(p)
+        # a file is sent to the same (at first absent) path twice; a directory is sent twice into the same
+        # existing directory (sending it to a path that exists as a directory means "inside it")
+        os.makedirs(os.path.join(d_root, "into"))
+        dst_path = os.path.join(d_root, "into") if case["stype"] == "dir" else os.path.join(d_root, "into", "obj")
+        final = os.path.join(d_root, "into", "obj")
+        src_loc, dst_loc = locs[case["src"]], locs[case["dst"]]
+        for v, p in enumerate(srcs, 1):
+            want = fs.snapshot(p, deref=True)
+            try:
+                await _register_and_transfer(ctx, src_loc, p, dst_loc, dst_path, True)
+            except (WorkflowExecutionException, OSError) as e:
+                raise Violation(f"{tag}raises:{type(e).__name__}", f"transfer {v}: {str(e)[:500]}") from None
+            got = fs.snapshot(final, deref=True)
+            if got != want:
+                changed = [k for k in set(got) & set(want) if tuple(got[k]) != tuple(want[k])]
+                sym = "structure" if set(got) != set(want) else "exec-bits" if all(got[k][2] == want[k][2] for k in changed) else "content"
+                raise Violation(f"{tag}{'first' if v == 1 else 'second'}-transfer:{sym}",
+                                f"{case}: after transfer {v} of 2 onto {final}\n" + fs.diff_snapshots(want, got))
+            regs = [r for r in ctx.data_manager.get_data_locations(final, dst_loc.deployment, dst_loc.name) if r.path == final]
+            if not regs or not all(r.available.is_set() for r in regs):
+                raise Violation(f"{tag}not-registered-available", f"{case}: after transfer {v}: {[(r.path, r.available.is_set()) for r in regs]}")
+        if fs.snapshot(srcs[0], deref=True) == fs.snapshot(srcs[1], deref=True):
+            raise HarnessError("the two versions do not differ")
+
+
+from vf.core import HarnessError  # noqa: E402
+
+# ---- transfers in flight together ---------------------------------------------------------------------
+
+_CUR = contextvars.ContextVar("vf_c22_actor", default=None)
+_IN_GATE = contextvars.ContextVar("vf_c22_in_gate", default=False)
+
+
+class _Flight:
+    """Book-keeping of the actors (transfers, look-ups) of one case. An actor is *stalled* when it is done, waits
+    at a copy gate, or waits for a DataLocation to become available; everything else it can wait for is
+    subprocess I/O, which always progresses. All actors stalled = an exact quiescent point (no clock)."""
+
+    def __init__(self):
+        import asyncio
+
+        self.asyncio = asyncio
+        self.at_gate: dict = {}
+        self.blocked: dict = {}
+        self.done: dict = {}
+        self.gates: dict = {}  # actor -> list of (future, description)
+        self.changed = asyncio.Event()
+        self.on_gate = None  # callback(actor, what, src) raising Violation
+        self.failure = None
+
+    def pulse(self):
+        self.changed.set()
+
+    def stalled(self, a) -> bool:
+        return bool(self.done.get(a) or self.at_gate.get(a, 0) > 0 or self.blocked.get(a, 0) > 0)
+
+    async def quiesce(self, actors):
+        while not all(self.stalled(a) for a in actors):
+            self.changed.clear()
+            if all(self.stalled(a) for a in actors):
+                break
+            await self.changed.wait()
+
+    def tracked_event(self, was_set: bool):
+        flight, asyncio = self, self.asyncio
+
+        class TrackedEvent(asyncio.Event):
+            async def wait(self):
+                if self.is_set():
+                    return True
+                a = _CUR.get()
+                flight.blocked[a] = flight.blocked.get(a, 0) + 1
+                flight.pulse()
+                try:
+                    return await super().wait()
+                finally:
+                    flight.blocked[a] -= 1
+                    flight.pulse()
+
+        ev = TrackedEvent()
+        if was_set:
+            ev.set()
+        return ev
+
+    def instrument(self, ctx, conns):
+        """(1) every DataLocation that enters the registry gets a tracked `available` event; (2) the three copy
+        entry points of every connector wait at a gate that the case's schedule opens: a copy may take
+        arbitrarily long, so every such delay is a feasible real schedule."""
+        mapper = ctx.data_manager.path_mapper
+        orig_put = mapper.put
+        flight = self
+
+        def put(path, data_location, recursive=False):
+            if not hasattr(data_location.available, "_vf_tracked"):
+                ev = flight.tracked_event(data_location.available.is_set())
+                ev._vf_tracked = True
+                data_location.available = ev
+            return orig_put(path, data_location, recursive)
+
+        mapper.put = put
+
+        def gate(conn, name):
+            orig = getattr(conn, name)
+
+            async def gated(*a, **k):
+                if _IN_GATE.get() or _CUR.get() is None:
+                    return await orig(*a, **k)
+                actor = _CUR.get()
+                tok = _IN_GATE.set(True)
+                try:
+                    fut = flight.asyncio.get_running_loop().create_future()
+                    flight.gates.setdefault(actor, []).append(fut)
+                    try:
+                        if flight.on_gate:
+                            flight.on_gate(actor, name, k.get("src", a[0] if a else None), k)
+                    except Violation as v:
+                        flight.failure = flight.failure or v
+                    flight.at_gate[actor] = flight.at_gate.get(actor, 0) + 1
+                    flight.pulse()
+                    await fut
+                    return await orig(*a, **k)
+                finally:
+                    _IN_GATE.reset(tok)
+
+            setattr(conn, name, gated)
+
+        for conn in conns.values():
+            for name in ("copy_local_to_remote", "copy_remote_to_local", "copy_remote_to_remote"):
+                gate(conn, name)
+
+    def release_one(self, actor) -> None:
+        fut = self.gates[actor].pop(0)
+        self.at_gate[actor] -= 1
+        fut.set_result(None)
+        self.pulse()
+
+
+def _h(*parts) -> int:
+    return int.from_bytes(hashlib.blake2b(repr(parts).encode(), digest_size=8).digest(), "big")
+
+
+def gen_concurrent(tier):
+    """Histories of 2..3 transfers of ONE registered source that are in flight together, plus look-ups. The first
+    block is a grid (for every destination kind X and a source on another host: a read-only and a writable
+    transfer towards X, other paths, both started before any copy is allowed to proceed, released in both
+    orders); the rest is a deterministic pseudo-random family: destinations drawn from a pool of two kinds (so
+    that transfers meet on one location), start offsets, release picks, look-ups."""
+    srcs = {"L": "A0", "A0": "L", "A1": "B0", "B0": "A1", "W0": "B0"}
+    n = 0
+    for x in KINDS:
+        for order in ([0, 1], [1, 0]):
+            for stype in ("dir", "file") if (tier != "quick" or order == [0, 1]) else ("dir",):
+                yield {"id": n, "src": srcs[x], "stype": stype,
+                       "transfers": [{"dst": x, "writable": False, "after": 0}, {"dst": x, "writable": True, "after": 0}],
+                       "lookups": [{"dst": x, "after": 0}], "picks": order}
+                n += 1
+    for i in range(14 if tier == "quick" else 1500):
+        pool = [KINDS[_h("p", i, 0) % 5], KINDS[_h("p", i, 1) % 5]]
+        nt = 2 + _h("n", i) % 2
+        yield {"id": n + i, "src": KINDS[_h("s", i) % 5], "stype": ("dir", "file", "link-dir")[_h("t", i) % 3],
+               "transfers": [{"dst": pool[_h("d", i, j) % 2], "writable": bool(_h("w", i, j) % 2), "after": 0 if j == 0 else _h("a", i, j) % 3}
+                             for j in range(nt)],
+               "lookups": [{"dst": pool[_h("l", i, j) % 2], "after": _h("la", i, j) % 3} for j in range(_h("nl", i) % 3)],
+               "picks": [_h("k", i, j) % 5 for j in range(8)]}
+
+
+@prop.enumerated("concurrent", gen_concurrent, exhaustive=False, loop="std", case_timeout=600, max_shards=8)
+async def check_concurrent(case, rec):
+    import asyncio
+
+    from streamflow.core.data import DataType
+    from streamflow.core.exception import WorkflowExecutionException
+    from streamflow.data.remotepath import StreamFlowPath
+
+    tag = "C22:concurrent:"
+    async with _world() as (sandbox, ctx, conns, locs):
+        dm = ctx.data_manager
+        s_root, d_root = os.path.join(sandbox, "s"), os.path.join(sandbox, "d")
+        os.makedirs(s_root)
+        os.makedirs(d_root)
+        is_link = case["stype"].startswith("link")
+        real = os.path.join(s_root, "real-obj" if is_link else "obj")
+        if case["stype"] in ("dir", "link-dir"):
+            fs.materialize(MATRIX_TREE, real)
+        else:
+            with open(real, "wb") as fh:
+                fh.write(fs.content(MATRIX_FILE["size"], MATRIX_FILE["seed"], MATRIX_FILE["c"]))
+            os.chmod(real, 0o755)
+        src_path = os.path.join(s_root, "obj")
+        if is_link:
+            os.symlink("real-obj", src_path)
+        want = fs.snapshot(real, deref=True)
+        src_loc = locs[case["src"]]
+        # registration as the engine does it (see _run_transfer)
+        real_sf = await StreamFlowPath(src_path, context=ctx, location=src_loc).resolve()
+        if str(real_sf) != src_path:
+            dl = dm.register_path(location=src_loc, path=str(real_sf), relpath=real_sf.name)
+            ll = dm.register_path(location=src_loc, path=src_path, relpath="obj", data_type=DataType.SYMBOLIC_LINK)
+            dm.register_relation(dl, ll)
+        else:
+            dm.register_path(location=src_loc, path=src_path, relpath="obj")
+
+        flight = _Flight()
+        flight.instrument(ctx, conns)
+        transfers = case["transfers"]
+        finals = [os.path.join(d_root, f"t{j}", os.path.basename(real)) for j in range(len(transfers))]
+        copy_started: set = set()
+
+        def complete(path: str) -> bool:
+            return fs.snapshot(path, deref=True) == want
+
+        def check_available(where: str) -> None:
+            """no destination may be reported available before its content is complete"""
+            for j, t in enumerate(transfers):
+                loc = locs[t["dst"]]
+                for r in dm.get_data_locations(finals[j], loc.deployment, loc.name):
+                    if r.path == finals[j] and r.available.is_set() and not complete(finals[j]):
+                        raise Violation(tag + "available-before-complete",
+                                        f"{where}: transfer {j} ({case['src']}->{t['dst']}, writable={t['writable']}) destination {finals[j]} is registered "
+                                        f"and available, but its content is {'missing' if not os.path.lexists(finals[j]) else 'incomplete'} "
+                                        f"(copy gate of that transfer {'not yet ' if ('t', j) not in copy_started else ''}opened)")
+
+        def on_gate(actor, what, src, kwargs) -> None:
+            if src is not None and not complete(str(src)):
+                raise Violation(tag + "copies-from-incomplete-source",
+                                f"{actor} is about to {what}(src={src!r}) but that path is {'missing' if not os.path.lexists(str(src)) else 'incomplete'}: "
+                                f"an unfinished destination of another transfer was selected as source")
+            check_available(f"when {actor} reached {what}")
+
+        flight.on_gate = on_gate
+        tasks: dict = {}
+        errors: dict = {}
+
+        async def transfer(j):
+            _CUR.set(("t", j))
+            t = transfers[j]
+            dst_loc = locs[t["dst"]]
+            sel = await dm.get_source_location(path=src_path, dst_deployment=dst_loc.deployment)
+            if sel is None:
+                raise Violation(tag + "no-source-location", f"transfer {j}")
+            if not complete(sel.path):
+                raise Violation(tag + "source-location-incomplete", f"transfer {j}: get_source_location returned {sel.path} on {sel.deployment}/{sel.name}, whose content is not complete")
+            await dm.transfer_data(src_location=sel.location, src_path=sel.path, dst_locations=[dst_loc], dst_path=finals[j], writable=t["writable"])
+
+        async def lookup(j):
+            _CUR.set(("l", j))
+            lk = case["lookups"][j]
+            sel = await dm.get_source_location(path=src_path, dst_deployment=locs[lk["dst"]].deployment)
+            if sel is not None and not (sel.available.is_set() and complete(sel.path)):
+                raise Violation(tag + "source-location-incomplete", f"look-up {j} for deployment of {lk['dst']}: get_source_location returned {sel.path} on "
+                                                                    f"{sel.deployment}/{sel.name} (available={sel.available.is_set()}), whose content is not complete")
+
+        def start(actor, coro):
+            task = asyncio.ensure_future(coro)
+            tasks[actor] = task
+
+            def fin(tk, actor=actor):
+                flight.done[actor] = True
+                flight.pulse()
+
+            task.add_done_callback(fin)
+
+        todo = [(("t", j), t["after"]) for j, t in enumerate(transfers)] + [(("l", j), lk["after"]) for j, lk in enumerate(case["lookups"])]
+        releases = 0
+        picks = list(case["picks"]) or [0]
+        overlapped = False
+        try:
+            while True:
+                for actor, after in list(todo):
+                    if after <= releases:
+                        todo.remove((actor, after))
+                        start(actor, transfer(actor[1]) if actor[0] == "t" else lookup(actor[1]))
+                await flight.quiesce(list(tasks))
+                if flight.failure:
+                    raise flight.failure
+                for actor, task in tasks.items():
+                    if task.done() and actor not in errors and task.exception() is not None:
+                        errors[actor] = task.exception()
+                        if isinstance(task.exception(), Violation):
+                            raise task.exception()
+                        if not isinstance(task.exception(), (WorkflowExecutionException, OSError)):
+                            raise task.exception()
+                        raise Violation(f"{tag}raises:{type(task.exception()).__name__}", f"{actor}: {str(task.exception())[:500]}")
+                check_available(f"at quiescent point after {releases} releases")
+                waiting = [a for a in tasks if flight.at_gate.get(a, 0) > 0]
+                in_flight = [a for a in tasks if a[0] == "t" and not flight.done.get(a)]
+                if len(in_flight) >= 2:
+                    overlapped = True
+                if not waiting:
+                    if all(flight.done.get(a) for a in tasks) and not todo:
+                        break
+                    if todo:  # nothing can be released: start the next actor now
+                        releases = min(after for _, after in todo)
+                        continue
+                    raise Violation(tag + "deadlock", f"no copy is waiting to proceed, yet {[a for a in tasks if not flight.done.get(a)]} "
+                                                      f"wait for a data location to become available")
+                actor = waiting[picks[releases % len(picks)] % len(waiting)]
+                copy_started.add(actor)
+                flight.release_one(actor)
+                releases += 1
+        finally:
+            for a, futs in flight.gates.items():
+                for f in futs:
+                    if not f.done():
+                        f.set_result(None)
+            pend = [t for t in tasks.values() if not t.done()]
+            for t in pend:
+                t.cancel()
+            if pend:
+                await asyncio.wait(pend)
+            for t in tasks.values():
+                if t.done() and not t.cancelled():
+                    t.exception()
+
+        # final oracle: every destination exact, registered, available; source untouched
+        for j, t in enumerate(transfers):
+            loc = locs[t["dst"]]
+            got = fs.snapshot(finals[j], deref=True)
+            if got != want:
+                raise Violation(tag + "final:" + ("structure" if set(got) != set(want) else "content"),
+                                f"transfer {j} {case['src']}->{t['dst']} writable={t['writable']}: after all transfers returned\n" + fs.diff_snapshots(want, got))
+            regs = [r for r in dm.get_data_locations(finals[j], loc.deployment, loc.name) if r.path == finals[j]]
+            if not regs or not all(r.available.is_set() for r in regs):
+                raise Violation(tag + "final:not-registered-available", f"transfer {j}: {[(r.path, r.available.is_set()) for r in regs]}")
+            may_link = (not t["writable"]) and any(DOMAIN[t["dst"]] == DOMAIN[o] for o in [case["src"]] + [u["dst"] for u in transfers])
+            if not may_link and os.path.islink(finals[j]):
+                raise Violation(tag + "final:writable-is-link", f"transfer {j}: {finals[j]} -> {os.readlink(finals[j])}")
+        if fs.snapshot(real, deref=True) != want:
+            raise Violation(tag + "source-modified", "")
+        same_loc = len({t["dst"] for t in transfers}) < len(transfers)
+        rec.label(f"transfers:{len(transfers)}", f"lookups:{len(case['lookups'])}", f"src:{case['stype']}",
+                  "meet-on-one-location" if same_loc else "distinct-locations", "overlapped" if overlapped else "sequential",
+                  *(f"dst:{t['dst']}" for t in transfers))
+        rec.nontrivial(overlapped)
